@@ -345,10 +345,6 @@ fn run_case(c: &mut Ctx, stream: &str, g: &GenDoc, start: u32, mode: Mode) {
     let new_keys: BTreeSet<ObjectId> = rho.values().cloned().collect();
     let f = |id: ObjectId| -> ObjectId { *rho.get(&id).unwrap_or(&id) };
     let reach = reachable(doc);
-    // trailer
-    if !same(&Object::Dictionary(map_refs_dict(&doc.trailer, &f)), &Object::Dictionary(after.trailer.clone())) {
-        c.oracle_fail("iso:trailer", "trailer is not the original with references renamed", case.clone());
-    }
     // dangling references that a moved object now answers to (at the final ids, or already at the
     // intermediate ids after the page-order pass — then the reference itself is renamed by the dense pass)
     let mut all_refs = vec![];
@@ -374,10 +370,17 @@ fn run_case(c: &mut Ctx, stream: &str, g: &GenDoc, start: u32, mode: Mode) {
         if pairs.iter().any(|(o, n)| !doc.objects.contains_key(o) && after.objects.contains_key(n)) {
             c.oracle_fail("dangling-captured", "a reference that resolved to nothing resolves to a renumbered object afterwards",
                 json!({"stream": stream, "start": start, "request": case["request"], "refs": format!("{:?}", captured)}));
+            // everything below (trailer and object equality, page order) is affected by the capture, whether the
+            // dangling reference sits in an object or directly in the trailer: reported once, under this signature
+            return;
         }
-        // everything below (object equality, page order) is affected by the capture: reported once, under this signature
-        return;
+        // the capture was possible but did not happen on the real code: all checks below apply unchanged
+        c.count("dangling_capture_possible_but_absent");
     } else if all_refs.iter().any(|r| !doc.objects.contains_key(r)) { c.count("dangling_still_dangling"); }
+    // trailer
+    if !same(&Object::Dictionary(map_refs_dict(&doc.trailer, &f)), &Object::Dictionary(after.trailer.clone())) {
+        c.oracle_fail("iso:trailer", "trailer is not the original with references renamed", case.clone());
+    }
     // objects: every old object sits at rho(id); reachable ones renamed, others untouched.
     // (an unreachable object that became reachable through a captured dangling reference is renamed too: skip those cases)
     {
